@@ -1602,6 +1602,11 @@ class LinearOperator(object):
         # A batch size of -1 keeps the size of that (existing) dimension
         batch_shape = list(shape[:-2])
         num_new_dims = len(batch_shape) - len(self.batch_shape)
+        if num_new_dims < 0:
+            raise RuntimeError(
+                "Invalid expand arguments {}: the number of sizes provided ({}) must be greater or equal to the "
+                "number of dimensions of the LinearOperator ({}).".format(tuple(sizes), len(shape), self.dim())
+            )
         for i, size in enumerate(batch_shape):
             if size == -1:
                 if i < num_new_dims:
